@@ -16,8 +16,8 @@ ASSUMPTIONS = [
     'simulated workers die only while IDLE or RUNNING; Td is the fake time of the '
     'supervision step that reaped the worker',
     'zones of open known findings are excluded by construction and counted '
-    '(death reaped before its ACK is consumed, faults after close); losses of '
-    'imap parts are generated and judged item by item',
+    '(faults after close); losses of imap parts and deaths reaped before the '
+    'victim\'s ACK is consumed are generated and judged (repaired D4/D13/D9, D7)',
 ]
 SHARDS = {'quick': 8, 'thorough': 16}
 WALL_LIMIT = {'quick': 1500, 'thorough': 6 * 3600}
@@ -46,9 +46,10 @@ def _nontrivial(labels, sim):
 
 execute_sim = make_execute({'c04'}, _nontrivial, prop='C04')
 PARTS = {'sim': execute_sim, 'real': rp.execute_c04,
-         'realimap': rp.execute_c04_imap}
+         'realimap': rp.execute_c04_imap, 'lateack': rp.execute_c04_lateack}
 EXPLORE = {'sim': (sim_cases(), execute_sim), 'real': (rp.c04_cases(), rp.execute_c04),
-           'realimap': (rp.c04_imap_cases(), rp.execute_c04_imap)}
+           'realimap': (rp.c04_imap_cases(), rp.execute_c04_imap),
+           'lateack': (rp.c04_lateack_cases(), rp.execute_c04_lateack)}
 
 
 def run(ctx):
@@ -57,3 +58,5 @@ def run(ctx):
                 shrink_budget=6, reexecute_confirm=2)
     ctx.explore('realimap', rp.c04_imap_cases(), rp.execute_c04_imap,
                 n=ctx.pick(2, 30), shrink_budget=6, reexecute_confirm=2)
+    ctx.explore('lateack', rp.c04_lateack_cases(), rp.execute_c04_lateack,
+                n=ctx.pick(2, 20), shrink_budget=4, reexecute_confirm=2)
